@@ -30,6 +30,7 @@ func drawStreamFault(c *Ctx, w *world.World) (simio.Fault, int) {
 		f.Extra = c.T.Intn("fault.extra", minInt(n-off, 300)+1)
 	}
 	f.WithData = c.T.Chance("fault.withData", 1, 4)
+	f.ErrKind = c.T.Weighted("fault.errkind", 6, 2, 2)
 	return f, class
 }
 
@@ -67,18 +68,19 @@ func runC16(c *Ctx) []Violation {
 	c.Note("world %s (format %s, input %d bytes); env %s", w.Name, w.Format, len(w.Input), env)
 	c.Note("delivery plan: %s", plan.String())
 	// sweep mode: every fault position of a small input, one fault kind (fault enumeration per world)
-	if len(w.Input) <= 400 && c.T.Chance("c16.sweep", 1, 8) {
+	if len(w.Input) <= 400 && c.T.Chance("c16.sweep", 1, 24) {
 		kind := simio.FaultPersistent
 		extra := 0
 		if c.T.Bool("c16.sweep.transient") {
 			kind = simio.FaultTransient
 			extra = 1 + c.T.Intn("c16.sweep.extra", 40)
 		}
-		c.Note("sweep over all %d fault positions, kind %s", len(w.Input)+1, simio.FaultName(kind))
+		ek := c.T.Weighted("c16.sweep.errkind", 4, 1, 1)
+		c.Note("sweep over all %d fault positions, kind %s, error value kind %d", len(w.Input)+1, simio.FaultName(kind), ek)
 		c.Count("sweeps", 1)
 		var known []Violation
 		for off := 0; off <= len(w.Input); off++ {
-			f := simio.Fault{Kind: kind, Off: off}
+			f := simio.Fault{Kind: kind, Off: off, ErrKind: ek}
 			if kind == simio.FaultTransient {
 				if off >= len(w.Input) {
 					continue
@@ -138,6 +140,7 @@ func c16Case(c *Ctx, w *world.World, env run.Env, plan simio.Plan, fault simio.F
 	if fault.WithData {
 		c.Count("fault.error-with-data", 1)
 	}
+	c.Count("fault.error-value."+[]string{"plain", "io.ErrUnexpectedEOF", "wraps-io.EOF"}[fault.ErrKind], 1)
 	if st.BytesAfterErr > 0 {
 		c.Count("fault.transient-bytes-delivered-after-error", 1)
 	}
@@ -169,7 +172,7 @@ func c16Case(c *Ctx, w *world.World, env run.Env, plan simio.Plan, fault simio.F
 		// "failed to fetch record" result (fileformat/csv/reader.go:52-54)
 		csvSite := false
 		for _, e := range got.Entries {
-			if e.Class == run.ClsContinuable && strings.Contains(e.Err, "failed to fetch record: "+simio.ErrSimIO.Error()) {
+			if e.Class == run.ClsContinuable && strings.Contains(e.Err, "failed to fetch record: "+fault.Err().Error()) {
 				csvSite = true
 			}
 		}
